@@ -62,6 +62,14 @@ func keyMutations() []mutation {
 			delete(e, "publicKeyJwk")
 			delete(e, "publicKeyBase58")
 		}},
+		mutation{"key-base58-empty", func(t *rapid.T, e map[string]interface{}, _ *[]interface{}) {
+			if e["type"] == tJWK2020 {
+				e["type"] = tEd2018
+				fixPurposes(e)
+			}
+			delete(e, "publicKeyJwk")
+			e["publicKeyBase58"] = rapid.SampledFrom([]interface{}{"", nil}).Draw(t, "emptyB58")
+		}},
 		mutation{"key-jwk-missing-member", func(t *rapid.T, e map[string]interface{}, _ *[]interface{}) {
 			delete(e, "publicKeyBase58")
 			j := docJWK(pool()[ktP256][0])
